@@ -475,6 +475,7 @@ def free_before_alias_use(ir):
     except Exception:
         return []
     hits = []
+    direct = []
 
     def names_e(e, out):
         if isinstance(e, LoopIR.Read):
@@ -526,7 +527,9 @@ def free_before_alias_use(ir):
                     r = alias[r]
                 roots.add(r)
             for x in freed:
-                if x in roots:
+                if x in used:
+                    direct.append(str(x))      # a textual use after the free: not F7 (not the unchanged tree's behaviour)
+                elif x in roots:
                     hits.append(str(x))
             if isinstance(s, LoopIR.Free):
                 freed.append(s.name)
@@ -539,7 +542,7 @@ def free_before_alias_use(ir):
                 block(s.orelse, alias)
 
     block(q.body, {})
-    return hits
+    return [] if direct else hits
 
 
 def stride_name_clash(ctext):
@@ -727,7 +730,7 @@ def gen_main(unit, inputs):
                 L.append(f'  printf("C {c} {f} {fmt}\\n", ({cast}) ctxt_s.{c}.{f});')
         for b in range(len(inp["heap"])):
             L.append(f"  free(b{b});")
-        L.append('  printf("DONE\\n");')
+        L.append('  printf("DONE\\n"); fflush(stdout);')
         L.append("  return 0;")
         L.append("}")
         L.append("")
